@@ -8,6 +8,43 @@ TYPES = ["int", "bool", "null", "octets", "objdesc", "opaque", "oid", "reloid", 
          "counter32", "gauge32", "timeticks", "uinteger32", "counter64", "real"]
 
 
+def indep_header(data):
+    """independent reading of the identifier and length octets (X.690 8.1.2, 8.1.3) with the
+    library's documented widths: tag number kept modulo 256, length modulo 2^64.
+    Returns the expected response line."""
+    if len(data) < 2:
+        return "err Incomplete"
+    i = 0
+    ident = data[0]
+    i = 1
+    cls, cons, tag = ident >> 6, (ident >> 5) & 1, ident & 0x1f
+    if tag == 0x1f:
+        tag = 0
+        while True:
+            if i >= len(data):
+                return "err Incomplete"
+            t = data[i]
+            i += 1
+            tag = ((tag << 7) | (t & 0x7f)) & 0xff
+            if not t & 0x80:
+                break
+    if i >= len(data):
+        return "err Incomplete"
+    n = data[i]
+    i += 1
+    if n & 0x80:
+        k = n & 0x7f
+        if i + k > len(data):
+            return "err Incomplete"
+        length = int.from_bytes(data[i:i + k], "big") & (2 ** 64 - 1) if k else 0
+        i += k
+    else:
+        length = n
+    if len(data) - i < length:
+        return "err Incomplete"
+    return f"ok {cls} {cons} {tag} {length} {gens.hx(data[i:])}"
+
+
 def suffixes(rng):
     k = rng.randrange(6)
     if k == 0:
@@ -89,6 +126,16 @@ def run(chk, model_ok=True):
             if bad <= 5:
                 chk.violation("oracle", f"extent violated: {ln[:160]} -> {out[:100]} (expected {want[:100]})",
                               {"kind": "oracle", "lines": [ln], "impl": [out], "expected": want})
+    # independent reading of every header: the content starts right after the length octets
+    for ln, out in zip(st0.lines, st0.impl):
+        if ln.startswith("hdr "):
+            h = ln.split(" ")[1]
+            want = indep_header(b"" if h == "-" else bytes.fromhex(h))
+            if out != want:
+                bad += 1
+                if bad <= 5:
+                    chk.violation("oracle", f"header extent differs from X.690: {ln[:120]} -> {out[:100]} (expected {want[:100]})",
+                                  {"kind": "oracle", "lines": [ln], "impl": [out], "expected": want})
     st0.diff("C16 decoders (base)")
     st.diff("C16 decoders (appended / truncated)")
     st.coverage(
